@@ -200,6 +200,12 @@ def make_env(w: World, main):
 
         @property
         def charge(self):
+            if getattr(w, "charge_from_atoms", False):
+                tot = 0
+                for a in self.atoms:
+                    if a.ffcharge is not None:
+                        tot = tot + a.ffcharge
+                return tot
             return self._charge
 
         def __str__(self):
@@ -215,7 +221,7 @@ def make_env(w: World, main):
             else:
                 self.residues = [FakeResidue(i, c) for i, c in enumerate(charges)]
             self.pdblist = pdblist
-            self.num_heavy = 100
+            self.num_heavy = getattr(w, "num_heavy", 100)
 
         @property
         def atoms(self):
